@@ -121,30 +121,44 @@ DYN_MEMBER = {('A', 'y'): '(bool)', ('A', 'onlyA'): '(range (int) "0" "7")', ('B
 def dynamic_binders(run, rng, n):
     """binders that range over dynamic templates (forall / exists / sum (p : T) ... p.member): nested, in sequence, with equal and with different binder names;
     every p.member must be the member of the template of the innermost enclosing binder named p (read from the type of the member in the dump)"""
+    NM, TM = {'p': 0, 'q': 1}, {'A': 1, 'B': 2}
     def gen(depth, env):
-        """-> (text, [(expected type of each p.member in text order)])"""
+        """-> (text, [member used by each p.member in text order], the expression for drv_dynscope); env is only used to pick a member the template has"""
         r = rng.random()
         if depth <= 0 or (env and r < 0.35):
             if not env:
-                return 'true', []
+                return 'true', [], 'N 0'
             nm = rng.choice(sorted(env))
             t = env[nm]
             mem = rng.choice([m for (tt, m) in DYN_MEMBER if tt == t])
             ty = DYN_MEMBER[(t, mem)]
             txt = {'(bool)': '%s.%s', '(clock)': '%s.%s >= 0'}.get(ty, '%s.%s > 0') % (nm, mem)
-            return txt, [ty]
+            return txt, [mem], 'M %d' % NM[nm]
         if r < 0.75:
             q, nm, t = rng.choice(['forall', 'exists']), rng.choice(['p', 'p', 'q']), rng.choice(['A', 'B'])
-            body, exp = gen(depth - 1, dict(env, **{nm: t}))
-            return '%s (%s : %s)(%s)' % (q, nm, t, body), exp
-        a, ea = gen(depth - 1, env)
-        b, eb = gen(depth - 1, env)
-        return '(%s) && (%s)' % (a, b), ea + eb
-    cases = []
+            body, mems, sx = gen(depth - 1, dict(env, **{nm: t}))
+            return '%s (%s : %s)(%s)' % (q, nm, t, body), mems, 'Q %d %d %s' % (NM[nm], TM[t], sx)
+        a, ma, sa = gen(depth - 1, env)
+        b, mb, sb = gen(depth - 1, env)
+        return '(%s) && (%s)' % (a, b), ma + mb, 'N 2 %s %s' % (sa, sb)
+    drv, err = vlib.build_extract('dynscope', 'Extract_DynScope.v', 'drv_dynscope') if os.path.exists(os.path.join(vlib.COQ, 'theories', 'DynScope.vo')) else (None, 'DynScope.vo missing')
+    if drv is None:
+        run.tie_broken('extraction of the model of binders over dynamic templates', err)
+        return 0
+    raw = []
     for _ in range(n):
-        txt, exp = gen(rng.choice([2, 3, 3, 4]), {})
-        if exp:
-            cases.append((txt, exp))
+        txt, mems, sx = gen(rng.choice([2, 3, 3, 4]), {})
+        if mems:
+            raw.append((txt, mems, sx))
+    mout = subprocess.run([drv], input='\n'.join(c[2] for c in raw) + '\n', stdout=subprocess.PIPE, universal_newlines=True).stdout.split('\n')
+    cases = []
+    for (txt, mems, sx), line in zip(raw, mout):
+        w, _, sp = line.partition(' | ')
+        if not line.startswith('W ') or w[2:].split() != sp[2:].split() or len(w[2:].split()) != len(mems) or '-' in w:
+            run.tie_broken('model of binders over dynamic templates: the stack implementation and the specification disagree, or the generator is out of step', dict(guard=txt, model=line))
+            continue
+        # the expected type of each member: the member's type in the template the model binds its binder to
+        cases.append((txt, [DYN_MEMBER[({1: 'A', 2: 'B'}[int(t)], m)] for t, m in zip(w[2:].split(), mems)]))
     j = vlib.Job()
     for k, (txt, exp) in enumerate(cases):
         j.case('d%d' % k, fork=True).cmd('BIND 1').model('xtaraw', DYN_MODEL % txt).dump('errors').dump('doc').end()
